@@ -104,7 +104,21 @@ def beam_pair(rng, kind=None):
     u = rand_unit(rng)
     w = perp(rng, u)
     n1, n2 = loguniform(rng, 1e-6, 1e6), loguniform(rng, 1e-6, 1e6)
-    kind = kind or rng.choice(['near', 'near', 'near', 'uniform', 'exact', 'axis'])
+    kind = kind or rng.choice(['near', 'near', 'near', 'uniform', 'exact', 'axis', 'near-axis'])
+    if kind == 'near-axis':
+        # incident beam ALMOST along a coordinate axis: transverse components 1e-13 .. 1e-6 of its length (absolute
+        # "is it aligned" thresholds in the beam's own unit treat such a beam as aligned); the other beam anywhere
+        ax = rng.choice([0, 1, 2])
+        sg = rng.choice([1.0, -1.0])
+        b1 = [loguniform(rng, 1e-13, 1e-6) * rng.choice([1.0, -1.0]) for _ in range(3)]
+        b1[ax] = sg
+        if rng.random() < 0.5:
+            n1 = loguniform(rng, 1e-6, 1e-2)
+        b1 = [c * n1 for c in b1]
+        al = rng.uniform(0, math.pi)
+        e2 = [math.cos(al) * a + math.sin(al) * b for a, b in zip(u, w)]
+        pair = ([c * n2 for c in e2], b1) if rng.random() < 0.3 else (b1, [c * n2 for c in e2])
+        return pair[0], pair[1], 'axis-near'
     if kind == 'uniform':
         al = rng.uniform(0, math.pi)
         e2 = [math.cos(al) * a + math.sin(al) * b for a, b in zip(u, w)]
@@ -146,7 +160,7 @@ def vop(vecs, unit, dim):
 SHAPES = {'ss': (None, None), 'sp': (None, 'p'), 'pp': ('p', 'p'), 'ps': ('p', None), 'xy': ('x', 'y')}
 
 
-def gen_groups(rng, n_tt, n_other):
+def gen_groups(rng, n_tt, n_other, kinds=None):
     groups = []
     gid = 0
     npix = 6
@@ -156,7 +170,7 @@ def gen_groups(rng, n_tt, n_other):
         d1, d2 = SHAPES[shape]
         n1 = npix if d1 else 1
         n2 = (npix if shape != 'xy' else 3) if d2 else 1
-        pairs = [beam_pair(rng) for _ in range(max(n1, n2))]
+        pairs = [beam_pair(rng, rng.choice(kinds) if kinds else None) for _ in range(max(n1, n2))]
         u1, u2 = rng.choice(LUNITS), rng.choice(LUNITS)
         ops = {'b1': vop([p[0] for p in pairs[:n1]], u1, d1), 'b2': vop([p[1] for p in pairs[:n2]], u2, d2)}
         groups.append({'id': gid, 'kname': 'two_theta', 'shape': shape, 'operands': ops, 'angles': [p[2] for p in pairs]})
@@ -210,6 +224,13 @@ def gen_groups(rng, n_tt, n_other):
                         ca, sa = c0 * math.cos(dl) - s0 * math.sin(dl), s0 * math.cos(dl) + c0 * math.sin(dl)
                         L = loguniform(rng, 0.01, 100) * n_inc
                         ops['position']['vecs'][k] = [m + L * (ca * a + sa * b) for m, a, b in zip(m_k, u, w)]
+            if kname.startswith('pos>') or kname in ('Ltotal_no_scatter', 'incident_beam', 'scattered_beam'):
+                # the whole beamline far from the origin of the coordinate system (a third of the groups): differences of
+                # positions stay exact to rounding, expanded squares |p|^2 - 2 p.s + |s|^2 cancel
+                if rng.random() < 0.34 and not mixed:
+                    off = [rng.uniform(-1, 1) * scale * loguniform(rng, 1e2, 1e6) for _ in range(3)]
+                    for nm in ops:
+                        ops[nm]['vecs'] = [[c + o_ for c, o_ in zip(v, off)] for v in ops[nm]['vecs']]
             for nm in list(ops):
                 o = ops[nm]
                 ops[nm] = vop(o['vecs'], o['unit'], o['dim'])
@@ -425,7 +446,7 @@ def correspondence(ctx):
     ctx.coverage.update({
         'evaluations': len(terms) + len(iterms) + len(rterms),
         'distinct_nontrivial': len({repr(d['operands']) + d['kernel'] for d in descs if isinstance(d['impl'], dict)}),
-        'rule': 'element-wise cases: beams with norms 1e-6..1e6 in mm/m/km, angles {0,pi/2,pi} +- {0,1e-12,1e-9,1e-6,1e-3}, uniform, exactly '
+        'rule': 'element-wise cases (incl. incident beams within 1e-13..1e-6 of a coordinate axis, and a third of the position groups displaced 1e2..1e6 beam lengths from the origin): beams with norms 1e-6..1e6 in mm/m/km, angles {0,pi/2,pi} +- {0,1e-12,1e-9,1e-6,1e-3}, uniform, exactly '
                 'parallel/antiparallel/perpendicular, axis-aligned; operand shapes scalar/per-pixel in all combinations (ss,sp,pp,ps,xy); '
                 'positions source/sample/detector with detectors near the beam axis; mixed length units (refusal); scalar L1/L2 in '
                 'float64/float32/int64; non-trivial = a finite result element; plus impl-vs-impl symmetry / rescaling (2^k, 3) / unit change / '
@@ -445,7 +466,12 @@ def search(ctx, broken):
     arithmetic (independent of the regenerated model), near-degenerate angles first."""
     rng = random.Random(ctx.seed + 7)
     found = []
-    groups = gen_groups(rng, 60, 44)
+    groups = gen_groups(rng, 60, 330)
+    # beams almost along a coordinate axis, many of them short (absolute alignment thresholds), scalar and per-pixel
+    extra = gen_groups(rng, 240, 0, kinds=['near-axis', 'near-axis', 'axis', 'near'])
+    for g in extra:
+        g['id'] += len(groups)
+    groups += extra
     res = ctx.run_impl('kernels_impl.py', {'groups': [{'id': g['id'], 'expr': KERNELS[g['kname']][2], 'operands': g['operands']} for g in groups]})
     for g, r in zip(groups, res['groups']):
         if 'result' not in r:
